@@ -255,7 +255,7 @@ class Check:
                 shutil.copy(os.path.join(gen, m + ext), bd)
                 srcs.append(m + ext)
         drv = open(os.path.join(VERIF, "ocaml", name + ".ml")).read()
-        for inc in ("conv", "convz", "convn"):
+        for inc in ("conv", "convz", "convn", "convp", "convzz"):
             drv = drv.replace("(*#include %s*)" % inc, open(os.path.join(VERIF, "ocaml", inc + ".inc")).read())
         open(os.path.join(bd, name + ".ml"), "w").write(drv)
         srcs.append(name + ".ml")
